@@ -20,6 +20,7 @@ use crate::engine::{AsyncCheck, CaseRec, Check, Ctx, Fail};
 use crate::net::fault::{Action, Ev, Phase, Rule, Side};
 use crate::net::rig::{SctpInfo, trace_data_len};
 use crate::net::sacksynth::SackForm;
+use crate::net::setupforge::{CUSTOM_INIT, CUSTOM_INIT_ACK, SetupForgery};
 use crate::net::wire::{self, SClass};
 use parking_lot::Mutex;
 use proptest::prelude::*;
@@ -68,6 +69,9 @@ pub struct TraceStats {
     pub sacks_over_16_blocks: u64,
     pub adjacent_blocks: bool,
     pub repeated_block: bool,
+    /// distinct INIT tags the responder's INIT-ACKs answered
+    pub init_ack_answer_tags: usize,
+    pub acted_on_fabricated: bool,
     pub skipped_tsns: u64,
     pub late_gap_unjudged: bool,
     /// first transmission of the first fragment of a user message: (sender, stream, capture time)
@@ -99,6 +103,8 @@ impl Default for TraceStats {
             sacks_over_16_blocks: 0,
             adjacent_blocks: false,
             repeated_block: false,
+            init_ack_answer_tags: 0,
+            acted_on_fabricated: false,
             skipped_tsns: 0,
             late_gap_unjudged: false,
             msg_starts: Vec::new(),
@@ -131,6 +137,8 @@ struct Chunk {
 
 #[derive(Clone, Debug)]
 struct InitInfo {
+    /// verification tag of the packet that carried it (an INIT-ACK answers the INIT with this initiate tag)
+    answers: u32,
     tag: u32,
     rwnd: u32,
     tsn: u32,
@@ -221,6 +229,8 @@ pub struct OracleInput<'a> {
     pub reliable_streams: &'a HashSet<u16>,
     pub end_us: u64,
     pub last_fault_us: u64,
+    /// fabricated setup chunks were presented in this run (net::setupforge)
+    pub forgery: Option<SetupForgery>,
     /// an endpoint reported the association closed
     pub closed: bool,
     /// the SACKs delivered in this run were built by the harness (net::sacksynth)
@@ -255,8 +265,15 @@ impl<'a> Oracle<'a> {
             self.acted[i].as_ref().map(|a| (init.tsn, a.rwnd))
         } else {
             // responder: own TSN from the INIT-ACK the peer acted upon, peer window from the INIT
+            // (the INIT the echoed INIT-ACK answered may be one the harness fabricated)
             match (&self.acted[o], self.inits[o].last()) {
-                (Some(a), Some(init)) => Some((a.tsn, init.rwnd)),
+                (Some(a), Some(init)) => {
+                    let rwnd = match self.inp.forgery {
+                        Some(f) if f.tag == a.answers => f.rwnd.unwrap_or(init.rwnd),
+                        _ => init.rwnd,
+                    };
+                    Some((a.tsn, rwnd))
+                }
                 _ => None,
             }
         };
@@ -457,7 +474,7 @@ impl<'a> Oracle<'a> {
                             wire::CT_INIT => {
                                 has_init = true;
                                 if let Some((tag, rwnd, tsn)) = c.as_init() {
-                                    self.inits[i].push(InitInfo { tag, rwnd, tsn, cookie: Vec::new() });
+                                    self.inits[i].push(InitInfo { answers: 0, tag, rwnd, tsn, cookie: Vec::new() });
                                 } else {
                                     return Err(Fail::new("malformed-packet", format!("{:?} sent a truncated INIT", s)));
                                 }
@@ -468,7 +485,11 @@ impl<'a> Oracle<'a> {
                                     if self.init_acks[i].iter().any(|x| x.tag != tag) {
                                         self.st.several_init_acks = true;
                                     }
-                                    self.init_acks[i].push(InitInfo { tag, rwnd, tsn, cookie });
+                                    self.init_acks[i].push(InitInfo { answers: pkt.vtag, tag, rwnd, tsn, cookie });
+                                    let mut t: Vec<u32> = self.init_acks[i].iter().map(|x| x.answers).collect();
+                                    t.sort_unstable();
+                                    t.dedup();
+                                    self.st.init_ack_answer_tags = self.st.init_ack_answer_tags.max(t.len());
                                 } else {
                                     return Err(Fail::new("malformed-packet", format!("{:?} sent a truncated INIT-ACK", s)));
                                 }
@@ -484,6 +505,9 @@ impl<'a> Oracle<'a> {
                                                     format!("{:?} echoed the cookie of a different INIT-ACK (tag {:08x}) after acting on tag {:08x}", s, a.tag, prev.tag),
                                                 ));
                                             }
+                                        }
+                                        if self.inp.forgery.map(|f| f.tag == a.answers).unwrap_or(false) {
+                                            self.st.acted_on_fabricated = true;
                                         }
                                         self.acted[i] = Some(a);
                                     }
@@ -504,7 +528,22 @@ impl<'a> Oracle<'a> {
                             return Err(Fail::new("vtag-nonzero-on-init", format!("{:?} sent an INIT with verification tag {:08x}", s, pkt.vtag)));
                         }
                     } else {
-                        let mut allowed: Vec<u32> = self.inits[o].iter().map(|x| x.tag).collect();
+                        // responder: an INIT-ACK answers one of the INITs handed to it (the genuine ones or the one the
+                        // harness fabricated); everything else carries the initiate tag of the INIT whose INIT-ACK
+                        // cookie the initiator echoed. initiator: the tag of the INIT-ACK whose cookie it echoed.
+                        let is_init_ack = pkt.chunks.iter().any(|c| c.ctype == wire::CT_INIT_ACK);
+                        let mut allowed: Vec<u32> = Vec::new();
+                        match &self.acted[o] {
+                            Some(a) if !is_init_ack && self.inits[i].is_empty() => allowed.push(a.answers),
+                            _ => {
+                                allowed.extend(self.inits[o].iter().map(|x| x.tag));
+                                if let Some(f) = self.inp.forgery {
+                                    if self.inits[i].is_empty() {
+                                        allowed.push(f.tag);
+                                    }
+                                }
+                            }
+                        }
                         if let Some(a) = &self.acted[i] {
                             allowed.push(a.tag);
                         }
@@ -951,6 +990,9 @@ pub struct Case {
     /// Some = every SACK is replaced by a harness-built truthful one in this form (peer-independent SACKs)
     #[serde(default)]
     pub sack: Option<SackForm>,
+    /// Some = a fabricated second INIT (and optionally INIT-ACK) is presented during setup
+    #[serde(default)]
+    pub forge: Option<SetupForgery>,
 }
 
 const RWNDS: [u32; 4] = [4 * 1024, 8 * 1024, 16 * 1024, 64 * 1024];
@@ -1131,6 +1173,7 @@ fn zero_window_case() -> impl Strategy<Value = Case> {
                 },
                 quiesce: true,
                 sack: None,
+                forge: None,
             }
         })
 }
@@ -1216,6 +1259,7 @@ fn many_holes_case() -> impl Strategy<Value = Case> {
                 },
                 quiesce: true,
                 sack: Some(form),
+                forge: None,
             }
         })
 }
@@ -1270,8 +1314,69 @@ fn lifetime_case() -> impl Strategy<Value = Case> {
                 n: NetSpec { rules, tsn_a, tsn_b, rwnd, max_burst, max_cwnd: 262144, rto_ms: RTOS[rto] },
                 quiesce: true,
                 sack,
+                forge: None,
             }
         })
+}
+
+/// Setup histories in which the server answers two INITs with DIFFERENT initiate tags before the
+/// COOKIE-ECHO: the harness fabricates a copy of the client's INIT with another tag (optionally another
+/// initial TSN / a_rwnd) and hands it to the server before or after the genuine one (first INIT or its
+/// retransmission); the INIT-ACK answering it is swallowed or delivered; optionally a fabricated INIT-ACK
+/// with another tag and a spoiled cookie follows the genuine INIT-ACK at the client. Then a normal workload.
+fn forged_setup_case() -> impl Strategy<Value = Case> {
+    let tag = prop_oneof![1 => Just(1u32), 1 => Just(u32::MAX), 4 => 2..u32::MAX];
+    let forge = (
+        tag.clone(),
+        prop_oneof![2 => Just(0u32), 1 => 1..5000u32, 1 => Just(0x8000_0000u32)],
+        prop_oneof![2 => Just(None), 1 => Just(Some(4096u32)), 1 => Just(Some(1u32 << 20))],
+        any::<bool>(),
+        any::<bool>(),
+        prop_oneof![2 => Just(None), 1 => tag.prop_map(Some)],
+        prop::bool::weighted(0.3),
+    )
+        .prop_map(|(tag, tsn_delta, rwnd, before, swallow, mirror, on_retransmit)| {
+            // an INIT-ACK answering the fabricated INIT that reaches the client first is acted upon by it:
+            // keep the parameters of the genuine INIT then, only the tag differs
+            let keep = before && !swallow;
+            (
+                SetupForgery {
+                    tag,
+                    tsn_delta: if keep { 0 } else { tsn_delta },
+                    rwnd: if keep { None } else { rwnd },
+                    before,
+                    swallow,
+                    mirror,
+                },
+                on_retransmit,
+            )
+        });
+    let w = (1..=2usize).prop_flat_map(|nch| {
+        let chans: Vec<ChanSpec> = (0..nch).map(|i| chan(100 + i as u16, true, Rel::Reliable, None)).collect();
+        let op = (side_strategy(), 0..nch, size_strategy(4096), prop_oneof![3 => Just(0u16), 1 => 1..30u16])
+            .prop_map(|(side, chan, size, gap_ms)| SendOp { side, chan, task: chan as u8, size, gap_ms });
+        prop::collection::vec(op, 2..=14).prop_map(move |sends| Workload { chans: chans.clone(), sends })
+    });
+    (w, forge, prop::collection::vec(data_rule(8), 0..3), tsn_strategy(), tsn_strategy(), prop::bool::weighted(0.25)).prop_map(|(w, (fg, on_retransmit), data, tsn_a, tsn_b, quiesce)| {
+        // A is the SCTP client in this rig
+        let mut rules = Vec::new();
+        if on_retransmit {
+            // the answer to the first INIT is lost: the transformation applies to the retransmitted INIT
+            rules.push(Rule { from: Side::B, class: SClass::InitAck, ordinal: 0, action: Action::Drop });
+        }
+        rules.push(Rule { from: Side::A, class: SClass::Init, ordinal: if on_retransmit { 1 } else { 0 }, action: Action::Custom(CUSTOM_INIT) });
+        for k in 0..6u16 {
+            rules.push(Rule { from: Side::B, class: SClass::InitAck, ordinal: k, action: Action::Custom(CUSTOM_INIT_ACK) });
+        }
+        rules.extend(data);
+        Case {
+            w,
+            n: NetSpec { rules, tsn_a, tsn_b, ..NetSpec::default_fast() },
+            quiesce,
+            sack: None,
+            forge: Some(fg),
+        }
+    })
 }
 
 fn net_strategy(max_ord: u16, max_rules: usize) -> impl Strategy<Value = NetSpec> {
@@ -1321,7 +1426,7 @@ fn reliable_case(max_msgs: usize) -> impl Strategy<Value = Case> {
             });
         prop::collection::vec(op, 1..=max_msgs).prop_map(move |sends| Workload { chans: chans.clone(), sends })
     });
-    (w, net_strategy(10, 6), prop::bool::weighted(0.5), sack_opt()).prop_map(|(w, n, quiesce, sack)| Case { w, n, quiesce, sack })
+    (w, net_strategy(10, 6), prop::bool::weighted(0.5), sack_opt()).prop_map(|(w, n, quiesce, sack)| Case { w, n, quiesce, sack, forge: None })
 }
 
 /// C12-style: reliable and partially reliable, ordered and unordered, negotiated and in-band channels,
@@ -1368,7 +1473,7 @@ fn mixed_case(max_ch: usize, max_msgs: usize) -> impl Strategy<Value = Case> {
             .prop_map(|(side, chan, task, size, gap_ms)| SendOp { side, chan, task, size, gap_ms });
         prop::collection::vec(op, 1..=max_msgs).prop_map(move |sends| Workload { chans: chans.clone(), sends })
     });
-    (w, net_strategy(12, 7), prop::bool::weighted(0.5), sack_opt()).prop_map(|(w, n, quiesce, sack)| Case { w, n, quiesce, sack })
+    (w, net_strategy(12, 7), prop::bool::weighted(0.5), sack_opt()).prop_map(|(w, n, quiesce, sack)| Case { w, n, quiesce, sack, forge: None })
 }
 
 // ------------------------------------------------------------------ judging
@@ -1468,6 +1573,7 @@ pub fn judge(c: &Case, r: &RunResult, rec: &CaseRec, agg: &Mutex<Agg>, tolerated
         reliable_streams: &reliable,
         end_us: r.end_us,
         last_fault_us: r.last_fault_us,
+        forgery: c.forge,
         closed: r.close_reason.iter().any(|x| x.is_some()),
         synthetic_sacks: c.sack.is_some(),
         rto_min_us: c.n.rto_ms.1 as u64 * 1000,
@@ -1480,7 +1586,7 @@ pub fn judge(c: &Case, r: &RunResult, rec: &CaseRec, agg: &Mutex<Agg>, tolerated
     }
 
     let low_window = st.min_a_rwnd.map(|m| m < 2400).unwrap_or(false);
-    rec.set_nontrivial(st.retransmissions > 0 || low_window);
+    rec.set_nontrivial(st.retransmissions > 0 || low_window || st.init_ack_answer_tags >= 2);
     if st.retransmissions > 0 {
         rec.label("has-retransmission");
     }
@@ -1501,6 +1607,25 @@ pub fn judge(c: &Case, r: &RunResult, rec: &CaseRec, agg: &Mutex<Agg>, tolerated
     }
     if st.fwd_tsn > 0 {
         rec.label("forward-tsn-on-wire");
+    }
+    if let Some(f) = &c.forge {
+        rec.label(format!(
+            "fabricated-INIT:{}-genuine,{}",
+            if f.before { "before" } else { "after" },
+            if f.swallow { "its-INIT-ACK-swallowed" } else { "its-INIT-ACK-delivered" }
+        ));
+        if st.init_ack_answer_tags >= 2 {
+            rec.label("server-answered-two-INITs-with-different-tags");
+        }
+        if st.acted_on_fabricated {
+            rec.label("client-echoed-cookie-of-the-fabricated-INIT");
+        }
+        if f.mirror.is_some() {
+            rec.label("fabricated-INIT-ACK-after-genuine");
+        }
+        if f.tsn_delta != 0 || f.rwnd.is_some() {
+            rec.label("fabricated-INIT-differs-in-tsn-or-rwnd");
+        }
     }
     // maxPacketLifeTime messages whose lifetime ran out while they were still queued: first put on the
     // wire later than submit + lifetime (channels fed by one sender task: k-th message start on the
@@ -1649,7 +1774,7 @@ fn checker(thorough: bool, agg: Arc<Mutex<Agg>>, tolerated: Arc<Vec<String>>) ->
         let tolerated = tolerated.clone();
         Box::pin(async move {
             let rec = CaseRec::default();
-            let res = match run_case_with(&c.w, &c.n, &limits(thorough, c.quiesce), &RigExtra { sack_form: c.sack }).await {
+            let res = match run_case_with(&c.w, &c.n, &limits(thorough, c.quiesce), &RigExtra { sack_form: c.sack, forgery: c.forge }).await {
                 Ok(r) => judge(&c, &r, &rec, &agg, &tolerated),
                 Err(e) => Err(Fail::new("harness-error", format!("rig failed: {e}"))),
             };
@@ -1660,7 +1785,7 @@ fn checker(thorough: bool, agg: Arc<Mutex<Agg>>, tolerated: Arc<Vec<String>>) ->
 
 pub fn run(ctx: &mut Ctx) {
     ctx.level = "exploration";
-    ctx.rule = "oracle over the decoded wire trace (every SCTP packet captured between two real IceConn+DTLS+SCTP endpoints, parsed by the harness' own reader and CRC32c) of proptest-generated runs: (1) zero-window runs: receive window {4,8,16,64 KiB} x max_burst {0,1,2,8} x max_cwnd {4800,64K,256K} x 4 RTO triples, bulk one-directional transfer (full-size chunks / large fragmented messages / hundreds of tiny messages / mixed, optional reverse traffic) with one early DATA packet held back, delayed or dropped plus 0-6 faults on the following DATA packets (which include its retransmissions) and 0-3 on SACKs, forced initial TSNs near 0 / 2^31 / 2^32; (2) C01-style reliable bidirectional workloads with faults on setup and data chunks; (3) C12-style mixed reliable / partially reliable / in-band channels with several sender tasks. (4) many-holes: 17-60 simultaneous holes, harness-built uncapped SACKs; (5) lifetime-in-queue: a burst on a maxPacketLifeTime channel (20-150 ms) while all DATA or all SACKs are lost / delayed for 0.3-2 s so that queued chunks outlive their lifetime before they are numbered, then later traffic on the same and a second channel. Non-trivial = the trace holds >= 1 retransmission or a SACK with a_rwnd < 2400; distinct by case digest.".into();
+    ctx.rule = "oracle over the decoded wire trace (every SCTP packet captured between two real IceConn+DTLS+SCTP endpoints, parsed by the harness' own reader and CRC32c) of proptest-generated runs: (1) zero-window runs: receive window {4,8,16,64 KiB} x max_burst {0,1,2,8} x max_cwnd {4800,64K,256K} x 4 RTO triples, bulk one-directional transfer (full-size chunks / large fragmented messages / hundreds of tiny messages / mixed, optional reverse traffic) with one early DATA packet held back, delayed or dropped plus 0-6 faults on the following DATA packets (which include its retransmissions) and 0-3 on SACKs, forced initial TSNs near 0 / 2^31 / 2^32; (2) C01-style reliable bidirectional workloads with faults on setup and data chunks; (3) C12-style mixed reliable / partially reliable / in-band channels with several sender tasks. (4) many-holes: 17-60 simultaneous holes, harness-built uncapped SACKs; (5) lifetime-in-queue: a burst on a maxPacketLifeTime channel (20-150 ms) while all DATA or all SACKs are lost / delayed for 0.3-2 s so that queued chunks outlive their lifetime before they are numbered, then later traffic on the same and a second channel. (6) forged-setup: a fabricated second INIT with another initiate tag (optionally other TSN / a_rwnd) reaches the server before or after the genuine one, its INIT-ACK swallowed or delivered, optionally a fabricated INIT-ACK after the genuine one. Non-trivial = the trace holds >= 1 retransmission, a SACK with a_rwnd < 2400, or INIT-ACKs answering two different initiate tags; distinct by case digest.".into();
     ctx.assumptions = vec![
         "the trace is taken between DTLS decryption and SCTP input of the receiving endpoint: capture order equals send order (loss-free in-order loopback datagram path), capture time is later than the send time by the transit latency".into(),
         "window clause: outstanding bytes = user-data bytes of reliably sent chunks (reliable channels + DCEP) first-transmitted so far and covered by no SACK delivered to the sender so far (cumulative or gap, union over all delivered SACKs) and not given up by a FORWARD-TSN; compared with the largest a_rwnd among the SACKs delivered in the last 100 ms plus the one before them (the INIT / INIT-ACK a_rwnd while no older SACK exists); allowance one packet (1200 bytes) as RFC 4960 6.1 rule A".into(),
@@ -1687,6 +1812,10 @@ pub fn run(ctx: &mut Ctx) {
     let n = ctx.scale(64usize, 1600usize);
     if want("lifetime-in-queue") {
         ctx.sub_async(&rt, "lifetime-in-queue", n, 64, lifetime_case(), checker(th, agg.clone(), tolerated.clone()));
+    }
+    let n = ctx.scale(96usize, 2400usize);
+    if want("forged-setup") {
+        ctx.sub_async(&rt, "forged-setup", n, ctx.scale(96, 64), forged_setup_case(), checker(th, agg.clone(), tolerated.clone()));
     }
     let n = ctx.scale(160usize, 3000usize);
     if want("reliable-faulted") {
